@@ -14,6 +14,8 @@ mod rng;
 mod slice;
 mod streams;
 mod util;
+#[cfg(feature = "xen")]
+mod xbuildw;
 
 use rng::Rng;
 use util::Rec;
@@ -79,6 +81,8 @@ fn main() {
         "build" => buildw::run(&mut rec, &mut rng, n),
         #[cfg(not(feature = "xen"))]
         "life" => lifew::run(&mut rec, &mut rng, n),
+        #[cfg(feature = "xen")]
+        "xbuild" => xbuildw::run(&mut rec, &mut rng, n),
         "amem" => atomw::run(&mut rec, &mut rng, n, if opts.contains(&"stress") { 3 } else { 0 }),
         "copy" => copyw::run(&mut rec, &mut rng, n, if opts.contains(&"tear") { 2 } else { 0 }),
         "atomic" => atomicw::run(&mut rec, &mut rng, n, opts.contains(&"thorough")),
@@ -106,6 +110,8 @@ thread_local! {
     static BW: std::cell::RefCell<buildw::BuildWorld> = std::cell::RefCell::new(buildw::BuildWorld::new());
     #[cfg(not(feature = "xen"))]
     static LW: std::cell::RefCell<lifew::LifeWorld> = std::cell::RefCell::new(lifew::LifeWorld::new());
+    #[cfg(feature = "xen")]
+    static XB: std::cell::RefCell<xbuildw::XBuildWorld> = std::cell::RefCell::new(xbuildw::XBuildWorld::new());
     static AM: std::cell::RefCell<atomw::AmemWorld> = std::cell::RefCell::new(atomw::AmemWorld::new());
     static CP: std::cell::RefCell<copyw::CopyWorld> = std::cell::RefCell::new(copyw::CopyWorld::new());
     static AT: std::cell::RefCell<atomicw::AtomicWorld> = std::cell::RefCell::new(atomicw::AtomicWorld::new());
@@ -126,6 +132,8 @@ fn exec_line(rec: &mut Rec, world: &str, line: &str, chk: bool) -> String {
         }),
         #[cfg(not(feature = "xen"))]
         "life" => LW.with(|w| w.borrow_mut().exec(rec, line)),
+        #[cfg(feature = "xen")]
+        "xbuild" => XB.with(|w| w.borrow_mut().exec(rec, line).0),
         "amem" => AM.with(|w| w.borrow_mut().exec(rec, line)),
         "copy" => CP.with(|w| w.borrow_mut().exec(rec, line)),
         "atomic" => AT.with(|w| w.borrow_mut().exec(rec, line)),
